@@ -138,3 +138,63 @@ func printNode(p *Prog, n ast.Node) string {
 	_ = printer.Fprint(&b, p.Fset, n)
 	return b.String()
 }
+
+// explore deadflags: fields of a command's flags struct whose address is bound to a flag but that are never read.
+func init() {
+	exploreExtra["deadflags"] = func(p *Prog) {
+		var lines []string
+		for _, pk := range p.ModulePkgs() {
+			if !strings.Contains(pk.PkgPath, "/cmd/") {
+				continue
+			}
+			bound := map[types.Object]token.Pos{}
+			reads := map[types.Object]int{}
+			for _, f := range pk.Syntax {
+				ast.Inspect(f, func(n ast.Node) bool {
+					if ue, ok := n.(*ast.UnaryExpr); ok && ue.Op == token.AND {
+						if sel, ok := ast.Unparen(ue.X).(*ast.SelectorExpr); ok {
+							if v, ok := pk.TypesInfo.Uses[sel.Sel].(*types.Var); ok && v.IsField() {
+								bound[v] = sel.Pos()
+							}
+						}
+					}
+					return true
+				})
+			}
+			for _, f := range pk.Syntax {
+				var stack []ast.Node
+				ast.Inspect(f, func(n ast.Node) bool {
+					if n == nil {
+						stack = stack[:len(stack)-1]
+						return true
+					}
+					stack = append(stack, n)
+					sel, ok := n.(*ast.SelectorExpr)
+					if !ok {
+						return true
+					}
+					v, ok := pk.TypesInfo.Uses[sel.Sel].(*types.Var)
+					if !ok || !v.IsField() {
+						return true
+					}
+					if len(stack) >= 2 {
+						if ue, ok := stack[len(stack)-2].(*ast.UnaryExpr); ok && ue.Op == token.AND {
+							return true
+						}
+					}
+					reads[v]++
+					return true
+				})
+			}
+			for v, pos := range bound {
+				if reads[v] == 0 {
+					lines = append(lines, fmt.Sprintf("%s\t%s.%s", p.Pos(pos), relPkg(pk.PkgPath), v.Name()))
+				}
+			}
+		}
+		sort.Strings(lines)
+		for _, l := range lines {
+			fmt.Println(l)
+		}
+	}
+}
